@@ -19,13 +19,20 @@ Definition final_name (init : dirst) (o : op) : option (bytes * bool) :=
 Definition spec_ok (cs : tcase) : bool :=
   match cs with
   | TraceCase c t init o orc ft r after evs =>
-      match final_name init o, ft with
-      | Some (f, reserve), None =>
+      match final_name init o with
+      | Some (f, reserve) =>
           match r with
           | ROk => protocol_complete_ok f reserve evs
-          | RErr => match evs with [] => true | _ => protocol_prefix_ok f reserve evs || true end
+          | RErr =>
+              (* a failed (refused or faulted) operation: a prefix of the discipline followed by
+                 its clean-up - in particular no write to, truncation of or rename over a live file *)
+              protocol_prefix_x_ok f reserve evs
           end
-      | _, _ => true
+      | None =>
+          (* operations that write no record never create, write or truncate a file of the store *)
+          forallb (fun e => match e with
+                            | EWrite (LFile _) _ | ECreate (LFile _) | ERename (LTmpFile _) (LFile _) => false
+                            | _ => true end) evs
       end
   end.
 
